@@ -166,6 +166,10 @@ def run(tier):
     core.tlc_must_pass(res, "MC_Mesh")
     rep.add_tlc("MC_Mesh", res)
     rep.exhaustive = True
+    core.apalache_suite(rep, "Apa_Mesh", ["InvCounts", "InvPositive", "InvRatio", "InvSpans"],
+                        "model level, beyond the lattice: Apa_Mesh.tla proves with Apalache/Z3 that refinedmesh splits the cells, has "
+                        "positive cell sizes in both zones and spans the domain for EVERY cell count, proportion and ratio, and has "
+                        "exactly the requested cell-size ratio for every whole proportion")
     rnd = random.Random(core.seed())
     recs = cases_1d(rep, rnd, tier)
     mx = 7 if tier == "quick" else 12
